@@ -341,7 +341,7 @@ def signature(pid, clause, trows, upto, e):
                 continue
             op = r.get("op")
             involved = sess in (r.get("a1"), r.get("a2")) or (op == "cut" and ("." + sess + ".") in (r.get("a1") or "")) \
-                or op in ("open", "cut")
+                or op in ("open", "cut", "gateA", "gateF")
             if not involved:
                 continue
             ops.append(op)
@@ -500,7 +500,7 @@ def family_run(pid, tier, seed, replay):
             v.cov["vacuity_witnesses_reached"] = len(wits)
         phase("witness")
         # 2. scenarios generated by TLC from the model
-        limit = 120 if tier == "quick" else None
+        limit = 120 if tier == "quick" else 4000
         for i, (cfg, store, js, stateless, prime) in enumerate(fam["cover"][tier]):
             rows += cover_scenarios(v, cfg, store, js, stateless, prime, seed, rnd, limit, "cov%d." % i)
         n_cover = len(rows)
@@ -514,7 +514,7 @@ def family_run(pid, tier, seed, replay):
         else:
             rows += [dict(r, id="x-" + r["id"]) for r in corner_scenarios("C10", rnd)]
     phase("simulate")
-    nrand = 0 if replay else (250 if tier == "quick" else 4000)
+    nrand = 0 if replay else (250 if tier == "quick" else 3000)
     obs, orows = run_harness(pid, rows, seed, nrand)
     phase("go")
     traces, bad = judge(v, pid, obs, orows, {r["id"]: r for r in rows})
